@@ -647,7 +647,19 @@ pub fn c07(a: &Analysis, v: &mut Verdict) {
     for p in &a.hist.teardown_panics {
         v.add("C07", "C07.teardown", "panic-in-teardown".into(), format!("a tracing call made while the thread's local storage was being torn down panicked: {}", p.chars().take(160).collect::<String>()));
     }
-    // no call other than flush() waits for the collector
+    blocking_clause(a, v, "C07");
+    let teardown = a.case.ops.iter().filter(|r| matches!(r.op, Op::TeardownCalls { .. })).count() as u64;
+    v.probe("reentrant_closures", reentrant);
+    v.probe("tls_teardown_call", teardown);
+    v.probe("empty_token_ctx_probe", a.model.empty_token_ctx.len() as u64);
+    v.probe("scope_limit_hit", a.model.scope_limit_hits as u64);
+    v.probe("stack_limit_hit", a.model.stack_limit_hits as u64);
+    v.trigger = reentrant > 0 || teardown > 0 || !a.model.empty_token_ctx.is_empty() || a.any_full;
+}
+
+/// no call other than flush() waits for the collector (C07, C09)
+pub fn blocking_clause(a: &Analysis, v: &mut Verdict, prop: &str) {
+    let log = &a.hist.out.log;
     for (i, e) in log.iter().enumerate() {
         if e.kind != sim::K_LOCK_WAIT && e.kind != sim::K_JOIN_WAIT {
             continue;
@@ -677,24 +689,145 @@ pub fn c07(a: &Analysis, v: &mut Verdict) {
             }
         }
         v.add(
-            "C07",
-            "C07.block",
+            prop,
+            &format!("{}.block", prop),
             format!("{}:{}", op_kind(a, o), if e.kind == sim::K_LOCK_WAIT { "lock" } else { "join" }),
             format!("op {} had to wait for {} held by the collector side", a.describe_op(o), if e.kind == sim::K_LOCK_WAIT { "a lock" } else { "a thread" }),
         );
     }
-    let teardown = a.case.ops.iter().filter(|r| matches!(r.op, Op::TeardownCalls { .. })).count() as u64;
-    let empty_parents = a
-        .case
-        .ops
-        .iter()
-        .filter(|r| matches!(&r.op, Op::Child { multi: true, parents, .. } if parents.is_empty() || parents.iter().all(|p| matches!(a.model.slot_ref(*p), SlotM::Gone | SlotM::Empty))))
-        .count() as u64;
-    v.probe("reentrant_closures", reentrant);
-    v.probe("tls_teardown_call", teardown);
-    v.probe("empty_token_ctx_probe", a.model.empty_token_ctx.len() as u64);
-    v.probe("scope_limit_hit", a.model.scope_limit_hits as u64);
-    v.probe("stack_limit_hit", a.model.stack_limit_hits as u64);
-    let _ = empty_parents;
-    v.trigger = reentrant > 0 || teardown > 0 || !a.model.empty_token_ctx.is_empty() || a.any_full;
+}
+
+
+// ---------------------------------------------------------------------------------------------
+// C09: overload degrades by omission only
+
+pub fn c09(a: &Analysis, v: &mut Verdict) {
+    let m = a.model;
+    let log = &a.hist.out.log;
+    let _ = log;
+    // return: calls never wait for the collector, never panic
+    blocking_clause(a, v, "C09");
+    for (o, out) in a.hist.ops.iter().enumerate() {
+        if let Some(msg) = &out.panic {
+            if !msg.starts_with("harness:") {
+                v.add("C09", "C09.return", format!("{}:panic", op_kind(a, o)), format!("op {} panicked under overload: {}", a.describe_op(o), msg.chars().take(120).collect::<String>()));
+            }
+        }
+    }
+    // omit + correct: delivered is a subset of what was recorded (right trace, right parent, no
+    // duplicates); what was recorded minus the permitted omissions is delivered; attachments that
+    // are present sit on the right span, unaltered
+    crate::oracle2::no_spurious_pub(a, v, "C09");
+    crate::oracle2::presence_pub(a, v, "C09", "C09.omit");
+    crate::oracle2::check_attachments(a, v, "C09", "C09.attach", false, &|_| true);
+    // cancel still wins under overload
+    for (c, col) in m.collects.iter().enumerate() {
+        if col.cancelable && !col.cancels.is_empty() {
+            let delivered = a.delivered.iter().any(|d| d.exp.map(|e| m.recs[e].collect == c).unwrap_or(false));
+            let lost_at_exit = a
+                .collect_ids
+                .get(&c)
+                .map(|id| a.cmds.iter().any(|x| x.kind == 1 && x.collect == *id && x.lost && x.force && x.parked))
+                .unwrap_or(false);
+            if delivered && !lost_at_exit && !a.inversion(c).0 {
+                v.add(
+                    "C09",
+                    "C09.signals",
+                    format!("cancel-ineffective:{}", if a.inversion(c).1 { "ring-reordered" } else { "in-order" }),
+                    format!("trace {:032x} was cancelled under overload but records of it were delivered", col.trace_id),
+                );
+            }
+        }
+    }
+    // signals (white box): per thread, finish/cancel commands are consumed in the order they were
+    // issued, and none disappears while its thread lives
+    let mut by_tid: HashMap<usize, Vec<usize>> = HashMap::new();
+    for (i, c) in a.cmds.iter().enumerate() {
+        if c.force {
+            by_tid.entry(c.tid).or_default().push(i);
+        }
+    }
+    let mut parked_signals = 0u64;
+    for (tid, list) in &by_tid {
+        let mut last: Option<usize> = None;
+        for &ci in list {
+            let c = &a.cmds[ci];
+            if c.parked {
+                parked_signals += 1;
+            }
+            match c.consumed_at {
+                Some(at) => {
+                    if let Some(prev) = last {
+                        if at < prev {
+                            v.add(
+                                "C09",
+                                "C09.signals",
+                                "reordered".into(),
+                                format!(
+                                    "thread {}: a {} signal (collect {}) issued later was consumed before an earlier finish/cancel signal",
+                                    tid,
+                                    if c.kind == 2 { "finish" } else { "cancel" },
+                                    c.collect
+                                ),
+                            );
+                        }
+                    }
+                    last = Some(last.map(|p| p.max(at)).unwrap_or(at));
+                }
+                None => {
+                    // never consumed: fine only if it was lost in the exit flush with the ring still
+                    // full, or no cycle drained the ring after it entered / after it was parked
+                    if c.lost && c.parked {
+                        continue;
+                    }
+                    let since = c.entered.map(|li| log[li].step).unwrap_or_else(|| log[c.log_idx].step);
+                    let drained_later = a.cycles.iter().any(|cy| cy.drain_end.get(tid).map(|&d| d > since).unwrap_or(false) && cy.end_step != u32::MAX);
+                    let thread_alive_at_end = !log.iter().any(|e| e.kind == sim::K_THREAD_FIN && e.a == *tid as u64);
+                    if c.entered.is_some() && drained_later {
+                        v.add(
+                            "C09",
+                            "C09.signals",
+                            "dropped".into(),
+                            format!("thread {}: a {} signal (collect {}) entered the ring but was never consumed", tid, if c.kind == 2 { "finish" } else { "cancel" }, c.collect),
+                        );
+                    } else if c.entered.is_none() && !c.parked && !thread_alive_at_end {
+                        v.add(
+                            "C09",
+                            "C09.signals",
+                            "dropped-not-parked".into(),
+                            format!("thread {}: a {} signal (collect {}) was neither queued nor parked", tid, if c.kind == 2 { "finish" } else { "cancel" }, c.collect),
+                        );
+                    }
+                }
+            }
+        }
+    }
+    // scope limits: the recorded part of a burst is delivered in full (exact count)
+    for (o, rec) in a.case.ops.iter().enumerate() {
+        if let Op::LocalBurst { .. } = rec.op {
+            let node = node_id(o, None);
+            let exps: Vec<usize> = m.recs.iter().enumerate().filter(|(_, r)| r.node == node).map(|(i, _)| i).collect();
+            if exps.is_empty() {
+                continue;
+            }
+            let flushes: Vec<usize> = a.case.ops.iter().enumerate().filter(|(f, r)| matches!(r.op, Op::Flush) && a.op_executed(*f)).map(|(f, _)| f).collect();
+            if let Some(&f) = flushes.last() {
+                let due = exps.iter().filter(|&&i| crate::oracle2::expect_delivered_by(a, i, f)).count();
+                let got: usize = exps.iter().map(|&i| a.matched[i].len()).sum();
+                if got < due {
+                    v.add(
+                        "C09",
+                        "C09.limit",
+                        "burst-short".into(),
+                        format!("a scope recorded {} local spans up to its limit (op #{}), only {} were delivered", due, o, got),
+                    );
+                }
+            }
+        }
+    }
+    v.probe("parked_signals", parked_signals);
+    v.probe("scope_limit_hit", m.scope_limit_hits as u64);
+    v.probe("stack_limit_hit", m.stack_limit_hits as u64);
+    // trigger: a Full push or a limit hit, followed by a later delivered record (recovery)
+    v.trigger = a.any_full || m.scope_limit_hits > 0 || m.stack_limit_hits > 0;
 }
